@@ -168,8 +168,13 @@ def check_result(ctx, spec, cfg, res, mdp, view, name, refpack=None, pfx="C01"):
     if gamma < 1.0 and not exact:
         rmax = max(ref.rmax_abs(), 1e-300)
         need = math.ceil(math.log(residual * (1 - gamma) / rmax) / math.log(gamma)) + 2 if rmax > residual else 2
-        if need < 1e5 - 2:
+        # (only where the threshold is reachable in floating point: successive sweeps cannot agree to better than a few
+        # ulps of the largest value, ~1e-16 * |r|max / (1 - gamma))
+        reachable_threshold = residual > 1e-14 * rmax / (1 - gamma)
+        if need < 1e5 - 2 and reachable_threshold:
             ctx.check(converged, f"{pfx}.{name}.converged_flag", lambda: f"iterations={res.iterations} need<={need}")
+        elif not reachable_threshold:
+            ctx.event("residual_threshold_below_floating_point_floor")
     if not converged:
         ctx.event("not_converged")
         return
@@ -200,7 +205,9 @@ def check_result(ctx, spec, cfg, res, mdp, view, name, refpack=None, pfx="C01"):
             delta = 0.0  # value iteration: ||V_k - V*|| <= residual/(1-gamma) needs no tie allowance
     else:
         H = ref.expected_steps(pi, zero=zero)
-    bound = (residual + delta) * H + TOL * (1 + vmax)
+    # (TOL * vmax covers rounding relative to the values; rewards far larger than any optimal value - a -1e12 penalty an
+    # optimal policy avoids - still sit in the linear systems of msdm and of the reference: their rounding is relative to them)
+    bound = (residual + delta) * H + TOL * (1 + vmax) + 1e-13 * ref.rmax_abs() * np.where(np.isfinite(H), H, 1.0)
 
     # 1. values
     nz = [s for s in states if not zero[s]]
